@@ -3103,6 +3103,18 @@ def update_working_tree(
             path = change.old.path
             if not validate_path(path, validate_path_element):
                 continue
+            # A leading directory that has become a symlink means the tracked
+            # file is gone already; unlinking through the link would delete
+            # whatever it points at, possibly outside the work tree. Like
+            # git's unlink_entry(), only drop the index entry in that case.
+            try:
+                verify_leading_dirs(path, [], repo_path)
+            except InvalidPathError:
+                try:
+                    del index[path]
+                except KeyError:
+                    pass
+                continue
 
             full_path = _tree_to_fs_path(repo_path, path, tree_encoding)
             try:
